@@ -7,6 +7,7 @@ open PoolM RR
 /-- `UpsertServer` / `RemoveServer` -/
 def Op.isAdmin : Op → Prop
   | .upsert _ _ => True
+  | .upsertFailing _ _ => True
   | .remove _ => True
   | _ => False
 
@@ -20,6 +21,7 @@ theorem Sys.step_frozen {s : Sys} (h : s.Inv) (op : Op) (hna : ¬ op.isAdmin) (h
     (s.step op).1.bal.ws = s.bal.ws ∧ (s.step op).1.reb.timer = s.reb.timer := by
   cases op with
   | upsert u w => exact absurd trivial hna
+  | upsertFailing u w => exact absurd trivial hna
   | remove u => exact absurd trivial hna
   | next =>
     obtain ⟨_, e2, _, _⟩ := Sys.step_next_out h
